@@ -600,6 +600,7 @@ def extract_kind(repo, lay, kind):
         cond = norm(s[1])
         if cond == "!name":
             seen_null = True
+            k.auto = auto_block(kind, v, s[2], field)
             continue
         if cond == "!*name":
             seen_empty = True
@@ -626,6 +627,44 @@ def check_type(kind, nm, code, flat, fi):
         return
     if code != want:
         fail("%s: property %s has type code %d but member %s needs %d" % (kind, nm, code, flat[fi][0], want))
+
+
+def auto_block(kind, v, body, field):
+    """the `!name` block (type-directed assignment): the conversions tried in order, as Lean `AutoStep` terms"""
+    t = norm(body)
+    head = ("int type;" if kind == "line" else "const MPT_STRUCT(%s)*from;int type;" % kind) + "if(!src){return MPT_ERROR(BadOperation);}"
+    tail = "return MPT_ERROR(BadType);"
+    if not t.startswith(head) or not t.endswith(tail):
+        fail("%s: unsupported frame of the name == NULL block" % kind)
+    t = t[len(head):-len(tail)]
+    steps = []
+    pats = [
+        (r"if\(\(type=mpt_%s_pointer_typeid\(\)\)>0&&\(len=src->_vptr->convert\(src,type,&from\)\)>=0\)\{if\(len&&from==%s\)\{return 0;\}return %sAssign\(%s,len\?from:0\);\}" % (kind, v, kind, v),
+         lambda m: ".sibling"),
+        (r"if\(\(type=mpt_line_typeid\(\)\)>0&&\(len=src->_vptr->convert\(src,type,li\)\)>=0\)\{if\(!len\)\*li=def_line;return 0;\}",
+         lambda m: ".own"),
+        (r"if\(\(len=mpt_string_pset\(&%s->(\w+),src\)\)>=0\)\{return len;\}" % v,
+         lambda m: ".string %d" % field(m.group(1), "name == NULL block")),
+        (r"if\(\(type=mpt_color_typeid\(\)\)>0&&\(len=src->_vptr->convert\(src,type,&%s->(\w+)\)\)>=0\)\{if\(!len\)%s->(\w+)=def_%s\.(\w+);return 0;\}" % (v, v, kind),
+         lambda m: (".colour %d" % field(m.group(1), "name == NULL block")) if m.group(1) == m.group(2) == m.group(3) else None),
+        (r"if\(\(type=mpt_lattr_typeid\(\)\)>0&&\(len=src->_vptr->convert\(src,type,&%s->attr\)\)>=0\)\{if\(!len\)%s->attr=def_%s\.attr;return 0;\}" % (v, v, kind),
+         lambda m: ".lattr"),
+    ]
+    while t:
+        for pat, mk in pats:
+            m = re.match(pat, t)
+            if m:
+                term = mk(m)
+                if term is None:
+                    fail("%s: a step of the name == NULL block restores another member" % kind)
+                steps.append(term)
+                t = t[m.end():]
+                break
+        else:
+            fail("%s: unsupported step in the name == NULL block: %r" % (kind, t[:100]))
+    if not steps or steps[0] not in (".sibling", ".own"):
+        fail("%s: the name == NULL block does not start with the kind's own type" % kind)
+    return steps
 
 
 def copy_block(kind, v, body):
@@ -941,6 +980,7 @@ def generate(repo):
         L.append("    " + ",\n    ".join("⟨%s /- %s -/, %s, %d⟩" % (lean_str(n), n, lean_int(c), f) for n, c, f in k.gets) + "]")
         L.append("  matchLen := %s" % ("none" if k.match_len is None else "some %d" % k.match_len))
         L.append("  getAlias := [%s]" % ", ".join("(%s /- %s -/, %s /- %s -/)" % (lean_str(a), a, lean_str(b), b) for a, b in k.get_alias))
+        L.append("  auto := [%s]" % ", ".join(k.auto))
         L.append("  sets := [")
         L.append("    " + ",\n    ".join("⟨[%s], %s⟩" % (", ".join("(%s /- %s -/, %s)" % (lean_str(n), n, "true" if ci else "false") for n, ci in names), act) for names, act in k.sets) + "]")
         L.append("  logAt := %s" % ("none" if not k.log_at else "some (%d, %d, %d)" % k.log_at))
